@@ -16,20 +16,31 @@ operation = one message), for ALL states, amounts, accounts, denoms and ALL oper
 * `*_delta_exact` — each operation changes the hold by exactly the reserved amount of the item(s)
   it handles (create, cancel, settle incl. the written-back remainder, fills, commit, release,
   commitment settlement, payment create/accept/reject/cancel, market closure; no change for
-  retarget / bank send / fee changes); `hold_change_eq_obligation_change` for every operation;
-  `rejected_changes_nothing`.
+  retarget / bank send / fee changes); `hold_change_eq_obligation_change` for every operation.
+  Item level: `marketReleaseCommitments_delta_exact` (the real message: a LIST of entries, an
+  account named several times, release-all via an empty amount — per account the hold falls by all
+  it had committed if one of its entries is a release-all, else by the sum of the named amounts);
+  `commitmentSettle_delta_exact` (hold change = outputs − inputs − fees named for the account);
+  `fillBids/fillAsks_delta_exact` (the filled orders are the stored orders with the listed ids,
+  each is deleted, all others kept); `cancelPayments_delta_exact` (exactly the named payments of
+  the source are removed, all others kept).
+* `refused_changes_nothing` — clean form: `refusal s op = some e` (the handler returns an error)
+  ⟹ `step s op = s`; `accepted_reports_ok` (not refused ⟹ the result line is ok);
+  `refused_frame`.  (`rejected_changes_nothing` is the older string-level form.)
 * `split_hold_additive` — filled + remaining hold = original hold for every `Order.Split`.
 * `cancel_by_owner_never_fails`, `closeMarket_never_swallows_an_error` — "no less": the hold is
   never short when a record is released.
-* genesis: `InitGenesis` accepts only geneses whose holds COVER the records
-  (`initGenesis_accepts_covering`); coverage is not equality (`genesis_excess_hold_accepted`,
-  a concrete accepted genesis with a larger hold), which is why the property starts "from a
-  genesis whose holds match its exchange records".
+* genesis: `InitGenesis` accepts EXACTLY the valid geneses whose holds COVER the records
+  (`initGenesis_accepts_iff` over the record keys, `initGenesis_accepts_iff_covering` for every
+  account and denom when the hold genesis is non-negative; `initGenesis_accepts_covering` is the
+  forward half); coverage is not equality (`genesis_excess_hold_accepted`, a concrete accepted
+  genesis with a larger hold), which is why the property starts "from a genesis whose holds match
+  its exchange records".
 
 The settlement's price/fee arithmetic is property C01's: `settle`/`fill*` take the observed
 result class and net balance moves as an input (`Oracle`); the theorems hold for every such input.
 -/
-import PvProofs.Lemmas.ExholdClose
+import PvProofs.Lemmas.ExholdRelease
 
 namespace PvProofs.C02
 open PvModel PvModel.Exhold PvProofs.Exhold
@@ -210,6 +221,85 @@ theorem rejected_changes_nothing (s : State) (op : Op) (e : Err) (h : (applyOp s
     | (split at h <;> first | rfl | (exfalso; first | exact hok h.symm | exact hne _ h.symm))
 
 
+/-- the result of an `Except`-valued handler: `none` = accepted, `some e` = refused with `e` -/
+def errOf {α : Type} : Except Err α → Option Err
+  | .ok _ => none
+  | .error e => some e
+
+/-- **Is the operation refused?**  The error the message's handler (ValidateBasic + msg server +
+keeper) returns in state `s`, `none` when it accepts.  `setMarket` / `fund` / `closeMarket` are
+governance / test set-up steps that cannot fail. -/
+def refusal (s : State) (op : Op) : Option Err :=
+  match op with
+  | .setMarket _ => none
+  | .fund _ _ => none
+  | .closeMarket _ => none
+  | .genesis g => errOf (initGenesis s g)
+  | .createOrder o fee => errOf (createOrder s o fee)
+  | .cancel id signer => errOf (cancelOrder s id signer)
+  | .settle admin m asks bids ep orc => errOf (settleOrders s admin m asks bids ep orc)
+  | .fillBids seller m bids total flat cfee orc => errOf (fillBids s seller m bids total flat cfee orc)
+  | .fillAsks buyer m asks total fees cfee orc => errOf (fillAsks s buyer m asks total fees cfee orc)
+  | .commit a m amount cfee => errOf (commitFunds s a m amount cfee)
+  | .release admin m entries => errOf (marketReleaseCommitments s admin m entries)
+  | .csettle admin m i o f => errOf (settleCommitments s admin m i o f)
+  | .pay p => errOf (createPayment s p)
+  | .accept p => errOf (acceptPayment s p)
+  | .reject t src ext => errOf (rejectPayment s t src ext)
+  | .rejectAll t srcs => errOf (rejectPayments s t srcs)
+  | .cancelPay src exts => errOf (cancelPayments s src exts)
+  | .retarget src ext nt => errOf (updatePaymentTarget s src ext nt)
+  | .send f t coins => errOf (bankSend s f t coins)
+
+/-- **A refused message changes nothing** (clean form): whenever the handler of `op` returns an
+error in state `s`, the whole state — records, holds, balances, markets — is unchanged, and the
+result line is that error's class. -/
+theorem refused_changes_nothing (s : State) (op : Op) (e : Err) (h : refusal s op = some e) :
+    step s op = s ∧ (applyOp s op).2 = e.toString := by
+  unfold step applyOp
+  cases op <;> simp only [refusal] at h <;>
+    first
+    | exact absurd h (by simp)
+    | (unfold errOf at h
+       split at h
+       · simp at h
+       · rename_i e' heq
+         injection h with h; subst h
+         simp only [heq]
+         first
+         | exact ⟨rfl, rfl⟩
+         | exact ⟨trivial, rfl⟩
+         | exact ⟨trivial, trivial⟩
+         | trivial)
+
+/-- … and `refusal` is exactly "the result line is not ok": an operation that is not refused
+reports `ok` (or `ok <new order id>`). -/
+theorem accepted_reports_ok (s : State) (op : Op) (h : refusal s op = none) :
+    (applyOp s op).2 = "ok" ∨ ∃ id : Nat, (applyOp s op).2 = s!"ok {id}" := by
+  unfold applyOp
+  cases op <;> simp only [refusal] at h <;>
+    first
+    | exact Or.inl rfl
+    | (unfold errOf at h
+       split at h
+       · rename_i x heq
+         simp only [heq]
+         first
+         | exact Or.inl rfl
+         | exact Or.inl trivial
+         | exact Or.inr ⟨_, rfl⟩
+         | trivial
+       · simp at h)
+
+/-- a refused message leaves every hold, every balance and every record as it was -/
+theorem refused_frame (s : State) (op : Op) (e : Err) (h : refusal s op = some e) (a : Addr) (d : Denom) :
+    hold (step s op) a d = hold s a d ∧ bal (step s op) a d = bal s a d ∧
+    (step s op).orders = s.orders ∧ (step s op).commitments = s.commitments ∧
+    (step s op).payments = s.payments := by
+  rw [(refused_changes_nothing s op e h).1]
+  exact ⟨rfl, rfl, rfl, rfl, rfl⟩
+
+
 /-! ### each operation changes the hold by exactly its item's reserved amount -/
 
 /-- sum of the reserved amounts of a list of orders owned by `a` -/
@@ -299,23 +389,64 @@ theorem settle_delta_exact {s s' : State} {admin : Addr} {m : Nat} {askIds bidId
     rw [getOrder_deleteAll_not_mem _ _ hnot, getOrder_setOrder_self]
 
 
-/-- `FillBids`: exactly the filled bid orders' holds are released (the seller needed none). -/
+/-- `FillBids`: the filled orders are exactly the stored bid orders with the listed ids (in that
+order, of that market, none the seller's own); each of them is deleted, every other order is kept;
+and every account's hold falls by exactly the reserved amounts of its filled orders (the seller
+needed no hold). -/
 theorem fillBids_delta_exact {s s' : State} {seller : Addr} {m : Nat} {ids : List Nat} {total : Coins}
     {flat cfee : Option Coin} {orc : Oracle} (hi : Inv s)
     (h : fillBids s seller m ids total flat cfee orc = .ok s') :
     ∃ bids, fillBidsOrders s seller m ids total flat cfee = .ok bids ∧
+      bids.map (·.id) = ids ∧
+      (∀ o ∈ bids, getOrder s.orders o.id = some o ∧ o.isAsk = false ∧ o.market = m ∧ o.owner ≠ seller ∧
+        getOrder s'.orders o.id = none) ∧
+      (∀ id, id ∉ ids → getOrder s'.orders id = getOrder s.orders id) ∧
       ∀ a d, hold s' a d = hold s a d - reservedOf bids a d := by
   obtain ⟨bids, hb, _, hh⟩ := fillBids_inv hi h
-  exact ⟨bids, hb, fun a d => by rw [hh a d, reservedOf, ← sumOver_orders]⟩
+  have hgo := fillBidsOrders_getOrders hb
+  obtain ⟨hids, hfound⟩ := getOrders_spec hgo
+  have hside := getOrders_side hgo
+  have hcs : closeSettlement s { full := bids, part := none } orc.moves = .ok s' := by
+    unfold fillBids at h
+    rw [hb] at h
+    simp only at h
+    split at h
+    · simp at h
+    · exact h
+  obtain ⟨hdel, hkeep⟩ := fill_orders_deleted hi (fillBidsOrders_ok hb) hcs
+  refine ⟨bids, hb, hids, fun o ho => ?_, fun id hid => hkeep id (by rw [hids]; exact hid),
+    fun a d => by rw [hh a d, reservedOf, ← sumOver_orders]⟩
+  obtain ⟨h1, h2, h3⟩ := hside o ho
+  exact ⟨hfound o ho, h1, h2, h3, hdel o ho⟩
 
-/-- `FillAsks`: exactly the filled ask orders' holds are released. -/
+/-- `FillAsks`: the filled orders are exactly the stored ask orders with the listed ids; each is
+deleted, every other order is kept; every account's hold falls by exactly the reserved amounts
+of its filled orders. -/
 theorem fillAsks_delta_exact {s s' : State} {buyer : Addr} {m : Nat} {ids : List Nat} {total : Coin}
     {fees : Coins} {cfee : Option Coin} {orc : Oracle} (hi : Inv s)
     (h : fillAsks s buyer m ids total fees cfee orc = .ok s') :
     ∃ asks, fillAsksOrders s buyer m ids total fees cfee = .ok asks ∧
+      asks.map (·.id) = ids ∧
+      (∀ o ∈ asks, getOrder s.orders o.id = some o ∧ o.isAsk = true ∧ o.market = m ∧ o.owner ≠ buyer ∧
+        getOrder s'.orders o.id = none) ∧
+      (∀ id, id ∉ ids → getOrder s'.orders id = getOrder s.orders id) ∧
       ∀ a d, hold s' a d = hold s a d - reservedOf asks a d := by
-  obtain ⟨asks, ha, _, hh⟩ := fillAsks_inv hi h
-  exact ⟨asks, ha, fun a d => by rw [hh a d, reservedOf, ← sumOver_orders]⟩
+  obtain ⟨asks, hb, _, hh⟩ := fillAsks_inv hi h
+  have hgo := fillAsksOrders_getOrders hb
+  obtain ⟨hids, hfound⟩ := getOrders_spec hgo
+  have hside := getOrders_side hgo
+  have hcs : closeSettlement s { full := asks, part := none } orc.moves = .ok s' := by
+    unfold fillAsks at h
+    rw [hb] at h
+    simp only at h
+    split at h
+    · simp at h
+    · exact h
+  obtain ⟨hdel, hkeep⟩ := fill_orders_deleted hi (fillAsksOrders_ok hb) hcs
+  refine ⟨asks, hb, hids, fun o ho => ?_, fun id hid => hkeep id (by rw [hids]; exact hid),
+    fun a d => by rw [hh a d, reservedOf, ← sumOver_orders]⟩
+  obtain ⟨h1, h2, h3⟩ := hside o ho
+  exact ⟨hfound o ho, h1, h2, h3, hdel o ho⟩
 
 /-- `CommitFunds`: the account's hold rises by exactly the committed amount. -/
 theorem commit_delta_exact {s s' : State} {m : Nat} {acct : Addr} {amount : Coins} {fee : Option Coin} (hi : Inv s)
@@ -330,19 +461,87 @@ theorem releaseCommitment_delta_exact {s s' : State} {m : Nat} {acct : Addr} {am
     hold s' a d = hold s a d - (if acct = a then Coins.amountOf (releasedAmount s m acct amount) d else 0) :=
   (releaseCommitment_inv hi h).2 a d
 
-/-- `MarketCommitmentSettle` (release inputs + fees, transfer, re-commit outputs) touches neither
-orders nor payments, and every account's hold changes by exactly the change of what it has
-committed: what was released for inputs and fees minus what was re-committed as outputs. -/
+/-- does the entry list of a `MsgMarketReleaseCommitments` ask to release EVERYTHING account `a`
+has committed (one of its entries has an empty amount)? -/
+def releasesAll (es : List (Addr × Coins)) (a : Addr) : Bool := es.any fun e => e.1 = a && e.2.isEmpty
+
+/-- what the entries release for account `a` in denom `d`, given what `a` has committed to the
+market: all of it if one of `a`'s entries has an empty amount, else the sum of the amounts that
+`a`'s entries name (`entriesAt`; an account may be named by several entries). -/
+def releasedByEntries (committed : Int) (es : List (Addr × Coins)) (a : Addr) (d : Denom) : Int :=
+  if releasesAll es a then committed else entriesAt es a d
+
+theorem anyZeroFor_eq_releasesAll {es : List (Addr × Coins)} (hv : ∀ e ∈ es, isValidCoins e.2 = true) (a : Addr) :
+    anyZeroFor es a = releasesAll es a := by
+  induction es with
+  | nil => rfl
+  | cons e t ih =>
+    have := ih (fun e' he' => hv e' (by simp [he']))
+    simp only [anyZeroFor, releasesAll] at this ⊢
+    simp only [List.any_cons, this, allZero_eq_isEmpty_of_valid (hv e (by simp))]
+
+/-- **`MarketReleaseCommitments`, the real message** (a LIST of entries, an account may be named
+several times, an empty amount = release all).  When the message is accepted: orders and
+payments are untouched; every account's hold falls by exactly what its entries release — all it
+had committed to the market if one of its entries is a release-all, else the sum of the amounts
+its entries name; what stays committed to the market is the rest; commitments to other markets
+are untouched. -/
+theorem marketReleaseCommitments_delta_exact {s s' : State} {admin : Addr} {m : Nat}
+    {entries : List (Addr × Coins)} (hi : Inv s)
+    (h : marketReleaseCommitments s admin m entries = .ok s') (a : Addr) (d : Denom) :
+    s'.orders = s.orders ∧ s'.payments = s.payments ∧
+    hold s' a d = hold s a d
+      - releasedByEntries (Coins.amountOf (getCommitment s.commitments m a) d) entries a d ∧
+    Coins.amountOf (getCommitment s'.commitments m a) d =
+      Coins.amountOf (getCommitment s.commitments m a) d
+        - releasedByEntries (Coins.amountOf (getCommitment s.commitments m a) d) entries a d ∧
+    (∀ m' a', m' ≠ m → getCommitment s'.commitments m' a' = getCommitment s.commitments m' a') := by
+  unfold marketReleaseCommitments at h
+  split at h
+  · simp at h
+  · rename_i hv
+    split at h
+    · simp at h
+    · have hvalid : ∀ e ∈ entries, isValidCoins e.2 = true := by
+        simp only [not_or, Bool.not_eq_true', Bool.not_eq_false'] at hv
+        have := hv.2.2
+        simpa [List.all_eq_true] using this
+      obtain ⟨ho, hp⟩ := releaseCommitments_sameOP h
+      obtain ⟨h1, h2, h3⟩ := releaseCommitments_delta hi h a d
+      simp only [relZ, anyZeroFor_eq_releasesAll hvalid a] at h1 h2
+      exact ⟨ho, hp, h1, h2, h3⟩
+
+/-- a release-all entry empties the account's commitment to the market and frees all of it -/
+theorem marketReleaseCommitments_release_all {s s' : State} {admin : Addr} {m : Nat}
+    {entries : List (Addr × Coins)} (hi : Inv s)
+    (h : marketReleaseCommitments s admin m entries = .ok s') {a : Addr} (hall : (a, []) ∈ entries) (d : Denom) :
+    Coins.amountOf (getCommitment s'.commitments m a) d = 0 ∧
+    hold s' a d = hold s a d - Coins.amountOf (getCommitment s.commitments m a) d := by
+  obtain ⟨_, _, h1, h2, _⟩ := marketReleaseCommitments_delta_exact hi h a d
+  have hra : releasesAll entries a = true := by
+    simp only [releasesAll, List.any_eq_true, Bool.and_eq_true, decide_eq_true_eq]
+    exact ⟨(a, []), hall, rfl, rfl⟩
+  simp only [releasedByEntries, hra, ↓reduceIte] at h1 h2
+  exact ⟨by omega, h1⟩
+
+/-- **`MarketCommitmentSettle`, item by item** (release inputs + fees, transfer, re-commit outputs).
+When the message is accepted it touches neither orders nor payments, and every account's hold
+changes by exactly what the message names for it: plus what the outputs give it, minus what the
+inputs and the fees take from it (`entriesAt`: the sum over the entries naming the account, an
+account may be named several times and in several lists) — and that is also the change of what
+the account has committed. -/
 theorem commitmentSettle_delta_exact {s s' : State} {admin : Addr} {m : Nat} {ins outs fees : List (Addr × Coins)}
     (hi : Inv s) (h : settleCommitments s admin m ins outs fees = .ok s') (a : Addr) (d : Denom) :
     s'.orders = s.orders ∧ s'.payments = s.payments ∧
-    hold s' a d - hold s a d =
-      Spec.sumOver s'.commitments (fun c => if c.account = a then Spec.commitmentReserved c d else 0)
-      - Spec.sumOver s.commitments (fun c => if c.account = a then Spec.commitmentReserved c d else 0) := by
+    hold s' a d - hold s a d = entriesAt outs a d - entriesAt ins a d - entriesAt fees a d ∧
+    Spec.sumOver s'.commitments (fun c => if c.account = a then Spec.commitmentReserved c d else 0)
+      - Spec.sumOver s.commitments (fun c => if c.account = a then Spec.commitmentReserved c d else 0)
+      = entriesAt outs a d - entriesAt ins a d - entriesAt fees a d := by
   obtain ⟨ho, hp⟩ := settleCommitments_sameOP h
   have h1 := (settleCommitments_inv hi h).holdsMatch a d
   have h2 := hi.holdsMatch a d
-  refine ⟨ho, hp, ?_⟩
+  have hd := settleCommitments_delta hi h a d
+  refine ⟨ho, hp, by omega, ?_⟩
   simp only [obligations, ho, hp] at h1 h2
   rw [← sumOver_commits, ← sumOver_commits]
   omega
@@ -403,13 +602,52 @@ theorem rejectPayments_spelling_irrelevant {s s₁ s₂ : State} {t : Addr} {src
   · have h2 : ¬ p.source ∈ srcs₂.map (·.acct) := fun hc => h1 (this.mpr hc)
     simp only [List.contains_eq_mem, h1, h2]
 
-/-- `CancelPayments`: exactly the looked-up payments. -/
+/-- `CancelPayments`: the cancelled payments are exactly the stored payments of the source with
+the listed external ids (one per id, in that order); each of them is removed, every other payment
+is kept, orders and commitments are untouched; and every account's hold falls by exactly the
+source amounts of its cancelled payments. -/
 theorem cancelPayments_delta_exact {s s' : State} {src : Addr} {exts : List String} (hi : Inv s)
     (h : cancelPayments s src exts = .ok s') :
     ∃ found, lookupPayments s.payments src exts = some found ∧
+      found.map payKey = exts.map (fun e => (src, e)) ∧
+      (∀ p ∈ found, getPayment s.payments p.source p.extId = some p ∧ p.source = src ∧
+        getPayment s'.payments p.source p.extId = none) ∧
+      (∀ src' ext, ¬ (src' = src ∧ ext ∈ exts) → getPayment s'.payments src' ext = getPayment s.payments src' ext) ∧
+      s'.orders = s.orders ∧ s'.commitments = s.commitments ∧
       ∀ a d, hold s' a d = hold s a d - sourceAmountsOf found a d := by
   obtain ⟨found, hf, _, hh⟩ := cancelPayments_inv hi h
-  exact ⟨found, hf, fun a d => by rw [hh a d, sourceAmountsOf, ← sumOver_pays]⟩
+  obtain ⟨hk, hg⟩ := lookupPayments_spec hf
+  have hnd : exts.Nodup := by
+    unfold cancelPayments at h
+    split at h
+    · simp at h
+    · rename_i hv
+      simp only [not_or, Bool.not_eq_true', Bool.not_eq_false'] at hv
+      simpa using hv.2
+  have hdr : deletePaymentsAndReleaseHolds s found = some s' := by
+    unfold cancelPayments at h
+    split at h
+    · simp at h
+    · rw [hf] at h
+      simp only at h
+      split at h
+      · simp at h
+      · rename_i s1 hs1
+        injection h with h; subst h; exact hs1
+  have hkn : (found.map payKey).Nodup := by rw [hk]; exact nodup_map_pair src hnd
+  obtain ⟨hgone, hkeep, ho, hc⟩ := deletePaymentsAndReleaseHolds_records hi hkn hg hdr
+  refine ⟨found, hf, hk, fun p hp => ⟨hg p hp, ?_, hgone p hp⟩, fun src' ext hne => ?_, ho, hc,
+    fun a d => by rw [hh a d, sourceAmountsOf, ← sumOver_pays]⟩
+  · have : payKey p ∈ exts.map (fun e => (src, e)) := by rw [← hk]; exact List.mem_map.mpr ⟨p, hp, rfl⟩
+    obtain ⟨e, _, he⟩ := List.mem_map.mp this
+    simp only [payKey, Prod.mk.injEq] at he
+    exact he.1.symm
+  · apply hkeep
+    rw [hk]
+    intro hm
+    obtain ⟨e, he, heq⟩ := List.mem_map.mp hm
+    simp only [Prod.mk.injEq] at heq
+    exact hne ⟨heq.1.symm, by rw [← heq.2]; exact he⟩
 
 /-- retargeting a payment, a bank send, and a change of a market's fees or switches do not
 touch any hold -/
@@ -562,6 +800,72 @@ theorem initGenesis_accepts_covering {s s' : State} {g : Genesis} (h : initGenes
           simpa using hall
         · simp at h
 
+/-- the state `InitGenesis` writes when it accepts: the records of the genesis file (orders by
+id, commitments accumulated per (market, account), the payments) and the hold module's holds -/
+def genesisLoaded (s : State) (g : Genesis) (ps : List Payment) : State :=
+  { s with orders := g.orders.foldl setOrder [], lastOrderId := g.lastOrderId,
+           commitments := loadCommitments g.commitments [], payments := ps,
+           hold := genesisHoldLedger g.holds }
+
+/-- **`InitGenesis`, both directions.**  It accepts (does not panic) exactly the geneses that are
+valid (`GenesisState.Validate`), whose last order id is not below an order's id, whose payments
+have distinct (source, external id) — and whose holds COVER what the records need, for every
+(account, denom) a record mentions; and then it writes exactly `genesisLoaded`. -/
+theorem initGenesis_accepts_iff {s s' : State} {g : Genesis} :
+    initGenesis s g = .ok s' ↔
+      g.validate = true ∧ g.orders.foldl (fun m o => max m o.id) 0 ≤ g.lastOrderId ∧
+      ∃ ps, loadPayments g.payments [] = some ps ∧ s' = genesisLoaded s g ps ∧
+        ∀ k ∈ recordKeys s', obligations s' k.1 k.2 ≤ hold s' k.1 k.2 := by
+  constructor
+  · intro h
+    unfold initGenesis at h
+    simp only at h
+    split at h
+    · simp at h
+    · rename_i hv
+      split at h
+      · simp at h
+      · rename_i hid
+        split at h
+        · simp at h
+        · rename_i ps hps
+          split at h
+          · rename_i hall
+            injection h with h
+            subst h
+            exact ⟨by simpa using hv, by omega, ps, hps, rfl, by simpa using hall⟩
+          · simp at h
+  · rintro ⟨hv, hid, ps, hps, rfl, hcov⟩
+    have hid' : ¬ g.lastOrderId < g.orders.foldl (fun m o => max m o.id) 0 := by omega
+    have hall : ((recordKeys (genesisLoaded s g ps)).all fun k =>
+        decide (obligations (genesisLoaded s g ps) k.1 k.2 ≤ hold (genesisLoaded s g ps) k.1 k.2)) = true := by
+      simpa using hcov
+    unfold initGenesis
+    simp only [hv, Bool.not_true, Bool.false_eq_true, ↓reduceIte, hid', hps]
+    unfold genesisLoaded at hall
+    rw [if_pos hall]
+    rfl
+
+/-- **"Accepts exactly covering holds."**  For a genesis whose hold entries are non-negative (the
+hold module's own genesis validation), `InitGenesis` accepts if and only if the genesis is valid
+and, for EVERY account and denom, the hold is at least what the account's genesis orders,
+commitments and payments require. -/
+theorem initGenesis_accepts_iff_covering {s : State} {g : Genesis} (hh : ∀ e ∈ g.holds, EntriesNonneg e.2) :
+    (∃ s', initGenesis s g = .ok s') ↔
+      g.validate = true ∧ g.orders.foldl (fun m o => max m o.id) 0 ≤ g.lastOrderId ∧
+      ∃ ps, loadPayments g.payments [] = some ps ∧
+        ∀ a d, obligations (genesisLoaded s g ps) a d ≤ hold (genesisLoaded s g ps) a d := by
+  constructor
+  · rintro ⟨s', h⟩
+    obtain ⟨hv, hid, ps, hps, rfl, hcov⟩ := initGenesis_accepts_iff.mp h
+    refine ⟨hv, hid, ps, hps, fun a d => ?_⟩
+    by_cases hk : (a, d) ∈ recordKeys (genesisLoaded s g ps)
+    · exact hcov (a, d) hk
+    · rw [obligations_zero_off_keys hk]
+      exact genesisHold_nonneg hh a d
+  · rintro ⟨hv, hid, ps, hps, hcov⟩
+    exact ⟨_, initGenesis_accepts_iff.mpr ⟨hv, hid, ps, hps, rfl, fun k _ => hcov k.1 k.2⟩⟩
+
 /-- **The property's starting point.** A genesis that `InitGenesis` accepts and whose holds
 match its exchange records (and do not exceed balances — the hold module's own genesis check)
 satisfies the invariant; the records' well-formedness follows from `GenesisState.Validate`. -/
@@ -626,5 +930,85 @@ example : hold (run {} exPays) "A" "usd" = 10 ∧ hold (run {} exPays) "B" "usd"
 example : (applyOp (run {} (exPays.take 5)) (.rejectAll "T" [⟨"A", .lower⟩, ⟨"A", .lower⟩])).2 = "err:invalid" ∧
     (applyOp (run {} (exPays.take 5)) (.rejectAll "T" [⟨"A", .lower⟩, ⟨"B", .mixed⟩])).2 = "err:invalid" ∧
     (applyOp (run {} (exPays.take 5)) (.rejectAll "T" [⟨"A", .lower⟩, ⟨"C", .lower⟩])).2 = "err:notfound" := by decide
+
+
+/-! ### non-vacuity of the round-3 theorems -/
+
+/-- two accounts commit to market 1 -/
+def exCommitOps : List Op :=
+  [.setMarket { id := 1 }, .fund "A" [("fig", 10), ("usd", 100)], .fund "B" [("usd", 50)], .fund "C" [("usd", 5)],
+   .commit "A" 1 [("fig", 5), ("usd", 20)] none, .commit "B" 1 [("usd", 7)] none]
+
+example : Inv (run {} exCommitOps) := run_preserves_inv exCommitOps {} (by decide) inv_empty
+
+/-- `marketReleaseCommitments_delta_exact`, hypotheses met by a message that names A three times
+(3usd, then 4usd, then release-all) and B once (release-all): accepted; A's hold falls by all it
+had committed (20usd, 5fig), B's by 7usd. -/
+example : ∃ s', marketReleaseCommitments (run {} exCommitOps) "ADM" 1
+      [("A", [("usd", 3)]), ("B", []), ("A", [("usd", 4)]), ("A", [])] = .ok s' ∧
+    hold (run {} exCommitOps) "A" "usd" = 20 ∧ hold s' "A" "usd" = 0 ∧ hold s' "A" "fig" = 0 ∧ hold s' "B" "usd" = 0 := by
+  refine ⟨_, rfl, ?_, ?_, ?_, ?_⟩ <;> decide
+
+/-- without a release-all the amounts named add up: 3usd + 4usd of A's 20usd -/
+example : ∃ s', marketReleaseCommitments (run {} exCommitOps) "ADM" 1
+      [("A", [("usd", 3)]), ("A", [("usd", 4)])] = .ok s' ∧
+    hold s' "A" "usd" = 13 ∧ hold s' "A" "fig" = 5 ∧ getCommitment s'.commitments 1 "A" = [("fig", 5), ("usd", 13)] := by
+  refine ⟨_, rfl, ?_, ?_, ?_⟩ <;> decide
+
+/-- an entry after a release-all of the same account is refused (nothing is committed any more) -/
+example : refusal (run {} exCommitOps) (.release "ADM" 1 [("A", []), ("A", [("usd", 1)])]) = some .commitx := by decide
+
+/-- `commitmentSettle_delta_exact`, hypotheses met: A pays 10usd to C and 2usd of fees, named by
+two input entries; accepted; A's hold falls by 12usd, C's rises by 10usd. -/
+example : ∃ s', settleCommitments (run {} exCommitOps) "ADM" 1
+      [("A", [("usd", 4)]), ("A", [("usd", 6)])] [("C", [("usd", 10)])] [("A", [("usd", 2)])] = .ok s' ∧
+    hold s' "A" "usd" = 8 ∧ hold s' "C" "usd" = 10 ∧ hold s' "B" "usd" = 7 ∧ bal s' "mkt1" "usd" = 2 := by
+  refine ⟨_, rfl, ?_, ?_, ?_, ?_⟩ <;> decide
+
+/-- `fillBids_delta_exact`, hypotheses met: B's bid (4 apples for 8usd) is filled by A -/
+def exFillOps : List Op :=
+  [.setMarket { id := 1 }, .fund "A" [("apple", 100)], .fund "B" [("usd", 100)],
+   .createOrder ⟨0, 1, "B", false, ("apple", 4), ("usd", 8), [], false⟩ none,
+   .createOrder ⟨0, 1, "A", true, ("apple", 10), ("usd", 30), [], false⟩ none]
+
+example : ∃ s', fillBids (run {} exFillOps) "A" 1 [1] [("apple", 4)] none none
+      ⟨"ok", [("A", [("apple", -4), ("usd", 8)]), ("B", [("apple", 4), ("usd", -8)])]⟩ = .ok s' ∧
+    hold (run {} exFillOps) "B" "usd" = 8 ∧ hold s' "B" "usd" = 0 ∧ hold s' "A" "apple" = 10 ∧
+    getOrder s'.orders 1 = none ∧ (getOrder s'.orders 2).isSome = true := by
+  refine ⟨_, rfl, ?_, ?_, ?_, ?_, ?_⟩ <;> decide
+
+/-- `fillAsks_delta_exact`, hypotheses met: A's ask (10 apples for 30usd) is filled by B -/
+example : ∃ s', fillAsks (run {} exFillOps) "B" 1 [2] ("usd", 30) [] none
+      ⟨"ok", [("A", [("apple", -10), ("usd", 30)]), ("B", [("apple", 10), ("usd", -30)])]⟩ = .ok s' ∧
+    hold s' "A" "apple" = 0 ∧ hold s' "B" "usd" = 8 ∧ getOrder s'.orders 2 = none := by
+  refine ⟨_, rfl, ?_, ?_, ?_⟩ <;> decide
+
+/-- `cancelPayments_delta_exact`, hypotheses met: A cancels two of its three payments -/
+def exCancelOps : List Op :=
+  [.fund "A" [("usd", 100)], .pay ⟨"A", "x1", "T", [("usd", 10)], []⟩, .pay ⟨"A", "x2", "U", [("usd", 20)], []⟩,
+   .pay ⟨"A", "x3", "", [("usd", 30)], []⟩]
+
+example : ∃ s', cancelPayments (run {} exCancelOps) "A" ["x3", "x1"] = .ok s' ∧
+    hold (run {} exCancelOps) "A" "usd" = 60 ∧ hold s' "A" "usd" = 20 ∧ s'.payments.length = 1 := by
+  refine ⟨_, rfl, ?_, ?_, ?_⟩ <;> decide
+
+/-- `refused_changes_nothing`, hypothesis met: cancelling an unknown order, an under-funded
+commitment, a release by a non-admin are refused -/
+example : refusal (run {} exFillOps) (.cancel 99 "A") = some .notfound ∧
+    refusal (run {} exCommitOps) (.commit "C" 1 [("usd", 6)] none) = some .funds ∧
+    refusal (run {} exCommitOps) (.release "A" 1 [("A", [])]) = some .perm ∧
+    refusal (run {} exCommitOps) (.commit "C" 1 [("usd", 5)] none) = none := by decide
+
+/-- `initGenesis_accepts_iff_covering`: `excessGenesis` (hold 11 ≥ 10 needed) has non-negative
+holds and is accepted; the same records with a hold of 9 are refused. -/
+example : (∀ e ∈ excessGenesis.holds, EntriesNonneg e.2) ∧ refusal {} (.genesis excessGenesis) = none ∧
+    refusal {} (.genesis { excessGenesis with holds := [("A", [("apple", 9)])] }) = some .genesis := by
+  refine ⟨?_, by decide, by decide⟩
+  intro e he c hc
+  simp only [excessGenesis, List.mem_singleton] at he
+  subst he
+  simp only [List.mem_singleton] at hc
+  subst hc
+  decide
 
 end PvProofs.C02
